@@ -31,6 +31,12 @@
 (*                    [errno, ret, att, nnpAt, flags, t]                   *)
 (*   synced           filters whose thread-sync load returned nil          *)
 (*                                                                         *)
+(* Not part of the state, on purpose: what the environment REPORTS about    *)
+(* the kernel (the release string of uname(2), which a personality can set *)
+(* to 2.6.x on any kernel).  The kernel's answers depend on its state      *)
+(* only, so recordings made under such a report must be behaviours of this *)
+(* specification like all others (C10 records some).                       *)
+(*                                                                         *)
 (* Dev: named deviations, each a behaviour of the pinned commit removed by *)
 (* a "fix:" commit.  Dev = {} is the tree as it is.                        *)
 (*   "R1Ignored"     the seccomp wrapper looked at errno only, so a        *)
